@@ -75,6 +75,11 @@ def replay(h, plan):
         obs, rew, done, trunc, info = env.step(h.real_action(a))
         if not info["success"]:
             return False, f"{a} failed on the real environment: { {k: info[k] for k in ('connection_error', 'permission_error', 'undefined_error')} }"
+    if env.goal_reached() and not done:
+        # every action of the plan succeeded and the goal query confirms the final state - the last clause of the
+        # property is about the flag step() returns
+        raise Failure("C16:terminal-flag", f"the replayed sequence ({len(plan)} actions, all successful) ends in a state with "
+                      f"goal_reached() == True but step() returned terminated={done} (step limit {env.scenario.step_limit}, {env.steps} steps)")
     if not done or not env.goal_reached():
         return False, f"plan executed but done={done}, goal_reached={env.goal_reached()}"
     return True, ""
